@@ -2,6 +2,7 @@
 canonical observers of the implementation, wire encoding/decoding for the
 extracted model (coq/run/HtmlRun.v), and the property oracles.  The oracles talk
 about the implementation's results only (never about the model)."""
+import copy
 import multiprocessing
 import os
 
@@ -141,7 +142,7 @@ def _impl_job(job):
     kind, src, oname, positions = job
     if kind == 'attrs':
         return impl_attributes(src, oname)
-    opts = OPT_SETS[oname] if isinstance(oname, str) else oname
+    opts = copy.deepcopy(OPT_SETS[oname]) if isinstance(oname, str) else oname   # a private copy per call: a library that edits its options argument must not rewrite the table
     if kind == 'scan':
         return impl_scan(src, opts)
     if kind == 'match':
@@ -176,7 +177,7 @@ CMD = {'scan': 1, 'match': 2, 'outward': 3, 'inward': 4, 'attrs': 5, 'open_tag':
 
 def model_case(job):
     kind, src, oname, positions = job
-    opts = OPT_SETS[oname] if isinstance(oname, str) and kind != 'attrs' else oname
+    opts = copy.deepcopy(OPT_SETS[oname]) if isinstance(oname, str) and kind != 'attrs' else oname
     if kind == 'scan':
         return [1] + enc_opts(opts) + enc_str(src)
     if kind in ('match', 'outward', 'inward'):
